@@ -12,7 +12,9 @@ import (
 	"bytes"
 	"fmt"
 	"math"
+	"strconv"
 	"strings"
+	"sync/atomic"
 	"time"
 
 	"github.com/influxdata/influxdb/v2/models"
@@ -33,6 +35,7 @@ const (
 	// finding of this property
 	kComment  = "comment-swallows-following-lines"
 	kEmptyKey = "empty-field-key-after-tab-or-nul"
+	kUnreadable = "accepted-point-fields-unreadable"
 
 	errPrefix = "unable to parse '"
 	errSep    = "': "
@@ -43,7 +46,7 @@ var fixedDefault = time.Unix(0, 1600000000123456789).UTC()
 
 func init() {
 	rec.Assume("whitespace at the start of a line is ' ', '\\t' and NUL (what the parser's skipWhitespace skips); a line that is empty after that, or starts with '#', is blank / a comment")
-	rec.Assume("rejected (damaged) lines never end in a backslash and comment lines contain no '\"' and no '\\' while finding comment-swallows-following-lines is open: a backslash before the newline joins the next line to the rejected one (documented trailing-backslash limitation, counted in classes excluded_documented:*)")
+	rec.Assume("rejected (damaged) lines never end in a backslash and comment lines contain no backslash: a backslash before the newline joins the next line to the current one (documented trailing-backslash limitation, counted in classes excluded_documented:*); comment lines contain no '\"' while finding comment-swallows-following-lines is open")
 	rec.Assume("for arbitrary bytes containing '\"' or '\\' the number of logical lines is not defined by the grammar; there the accounting check is: #points + #named <= #non-blank non-comment physical lines, every named text is a run of whole physical lines of the input, in order, without overlap")
 }
 
@@ -57,6 +60,21 @@ var (
 // checkPoint is the statement's predicate: non-empty measurement, >= 1 field (all readable), unique
 // tag keys, series key + field key within the maximum key length, representable timestamp.
 func checkPoint(p models.Point) (key, detail string) {
+	defer func() {
+		if r := recover(); r != nil {
+			key, detail = "returned-point-panics", fmt.Sprintf("reading the returned point %q panicked: %v", clip(p.String()), r)
+		}
+		// signature of the known finding: the line was accepted although its field section is NOT of the
+		// documented form key=value{,key=value} (judged by the harness' own strict scanner), and the
+		// fields of the returned point cannot be read back (error, panic, field without type, no field)
+		switch key {
+		case "returned-point-panics", "fields-unreadable", "field-unreadable", "field-without-type", "no-field":
+			if !strictFieldSection(rawFieldSection(p)) && ev.KnownOpen("C12", kUnreadable) {
+				rec.ExcludedKnown(kUnreadable)
+				key, detail = "", ""
+			}
+		}
+	}()
 	if len(p.Name()) == 0 || len(models.ParseName(p.Key())) == 0 {
 		return "empty-measurement", fmt.Sprintf("point %q has an empty measurement", p.String())
 	}
@@ -120,6 +138,18 @@ func checkPoint(p models.Point) (key, detail string) {
 		return "time-out-of-range", fmt.Sprintf("point with key %q has time %v outside [%d,%d]", p.Key(), t, lpgen.MinNanoTime, lpgen.MaxNanoTime)
 	}
 	return "", ""
+}
+
+// nonTrivial records a distinct non-trivial case; per process only the first 400 000 are hashed (the
+// thorough tier and the fuzz workers would otherwise hold tens of millions of hashes), the rest is counted.
+var ntCount atomic.Int64
+
+func nonTrivial(canon string) {
+	if ntCount.Add(1) <= 400000 {
+		rec.NonTrivial(canon)
+	} else {
+		rec.Class("nontrivial-beyond-hash-budget")
+	}
 }
 
 func clip(s string) string {
@@ -229,7 +259,7 @@ type outcome struct {
 func checkArbitrary(data []byte, prec string) (o outcome) {
 	defer func() {
 		if r := recover(); r != nil {
-			o.key, o.det = "panic", fmt.Sprintf("ParsePointsWithPrecision(%q, %s) panicked: %v", clip(string(data)), prec, r)
+			o.key, o.det = "parser-panics", fmt.Sprintf("ParsePointsWithPrecision(%q, %s) panicked: %v", clip(string(data)), prec, r)
 		}
 	}()
 	in := append([]byte(nil), data...)
@@ -246,12 +276,17 @@ func checkArbitrary(data []byte, prec string) (o outcome) {
 		}
 	}
 	lines := physLines(data)
-	countable, commentHazard := 0, false
+	countable, commentQuote, commentBackslash := 0, false, false
 	for _, l := range lines {
 		if !l.skippable {
 			countable++
-		} else if bytes.ContainsAny(data[l.start:l.end], "\"\\") {
-			commentHazard = true
+			continue
+		}
+		if bytes.IndexByte(data[l.start:l.end], '"') >= 0 {
+			commentQuote = true
+		}
+		if bytes.IndexByte(data[l.start:l.end], '\\') >= 0 {
+			commentBackslash = true
 		}
 	}
 	if err != nil {
@@ -270,7 +305,12 @@ func checkArbitrary(data []byte, prec string) (o outcome) {
 		o.key, o.det = "more-results-than-lines", fmt.Sprintf("%d points + %d named lines from %d non-blank non-comment lines: %q", o.points, o.named, countable, clip(string(data)))
 		return
 	}
-	if commentHazard && ev.KnownOpen("C12", kComment) {
+	if commentBackslash {
+		// documented backslash limitation: a backslash in a comment / blank line may escape its newline
+		rec.Class("excluded_documented:comment-or-blank-line-with-backslash")
+		return
+	}
+	if commentQuote && ev.KnownOpen("C12", kComment) {
 		rec.ExcludedKnown(kComment)
 		return
 	}
@@ -286,3 +326,108 @@ func checkArbitrary(data []byte, prec string) (o outcome) {
 }
 
 func timeUnit(prec string) time.Duration { return time.Duration(lpgen.Mult(prec)) }
+
+// rawFieldSection returns the text of the field section of a parsed point: String() is
+// key + " " + fields + " " + timestamp (the time of a parsed point is never zero).
+func rawFieldSection(p models.Point) string {
+	s := p.String()
+	s = s[len(p.Key()):]
+	s = strings.TrimPrefix(s, " ")
+	if i := strings.LastIndexByte(s, ' '); i >= 0 {
+		s = s[:i]
+	}
+	return s
+}
+
+var boolLiterals = map[string]bool{"t": true, "T": true, "true": true, "True": true, "TRUE": true, "f": true, "F": true, "false": true, "False": true, "FALSE": true}
+
+// strictFieldSection reports whether s is key=value{,key=value} as documented in tsdb/README.md:
+// in a key ',', '=' and ' ' are escaped by a backslash (a backslash before anything else is literal);
+// a value is a double-quoted string (with \" and \\ escapes), an integer (digits + i), an unsigned
+// (digits + u), a float or one of the boolean literals.
+func strictFieldSection(s string) bool {
+	i := 0
+	for {
+		// key
+		start := i
+		for i < len(s) && s[i] != '=' {
+			if s[i] == ',' || s[i] == ' ' {
+				return false
+			}
+			if s[i] == '\\' && i+1 < len(s) && strings.IndexByte(",= \"", s[i+1]) >= 0 {
+				i++
+			}
+			i++
+		}
+		if i >= len(s) || i == start {
+			return false
+		}
+		i++ // '='
+		if i >= len(s) {
+			return false
+		}
+		if s[i] == '"' {
+			i++
+			for {
+				if i >= len(s) {
+					return false
+				}
+				if s[i] == '\\' && i+1 < len(s) && (s[i+1] == '"' || s[i+1] == '\\') {
+					i += 2
+					continue
+				}
+				if s[i] == '"' {
+					i++
+					break
+				}
+				i++
+			}
+		} else {
+			vs := i
+			for i < len(s) && s[i] != ',' {
+				i++
+			}
+			v := s[vs:i]
+			if !boolLiterals[v] && !strictNumber(v) {
+				return false
+			}
+		}
+		if i == len(s) {
+			return true
+		}
+		if s[i] != ',' {
+			return false
+		}
+		i++
+	}
+}
+
+func strictNumber(v string) bool {
+	if v == "" {
+		return false
+	}
+	digits := func(d string) bool {
+		if d == "" {
+			return false
+		}
+		for i := 0; i < len(d); i++ {
+			if d[i] < '0' || d[i] > '9' {
+				return false
+			}
+		}
+		return true
+	}
+	switch v[len(v)-1] {
+	case 'i':
+		return digits(strings.TrimPrefix(v[:len(v)-1], "-"))
+	case 'u':
+		return digits(v[:len(v)-1])
+	}
+	for i := 0; i < len(v); i++ {
+		if !strings.ContainsRune("0123456789.eE+-", rune(v[i])) {
+			return false
+		}
+	}
+	_, err := strconv.ParseFloat(v, 64)
+	return err == nil
+}
